@@ -188,6 +188,19 @@ func c14Check(c *core.Ctx, hist []extOp, probes [][]byte, count func(nontrivial 
 					}
 				}
 			}
+			// an extension that keeps the name of a format is walked like that
+			// format: if the header ended on a node of this very name before the
+			// calls, the result string (optional parameters included) is the same
+			if leaf != nil && !leaf.builtin {
+				gs := detectNoTrace(t, p, l).String()
+				ps := pristine[i]
+				if k := strings.Index(ps, "("); k >= 0 {
+					ps = ps[:k]
+				}
+				if bare(ps) == bare(gs) && ps != gs {
+					return false, "C14/same-named-extension-walked-differently", fmt.Sprintf("history [%s]: input %s limit %d ends on the extension %s(%s) and is reported as %q; before the calls the same header ended on the format of that name and was reported as %q", t.hist, quoteShort(p), l, leaf.name, leaf.ext, gs, ps)
+				}
+			}
 			if !accepted {
 				if got := chainStr(detectNoTrace(t, p, l)); got != pristine[i] {
 					return false, "C14/unrelated-input-reclassified", fmt.Sprintf("history [%s]: input %s limit %d is rejected by every extension detector, yet it is now %s (before the calls: %s)", t.hist, quoteShort(p), l, got, pristine[i])
